@@ -4,6 +4,8 @@ import fractions, hashlib, json, math, os, re, subprocess, sys, time
 
 ROOT = os.path.dirname(os.path.dirname(os.path.abspath(__file__)))
 LEAN = os.path.join(ROOT, "lean")
+# evidence and replays of a run against another tree (seeded changes: VERIF_REPO=<worktree>) go to $VERIF_OUT
+OUT = os.environ.get("VERIF_OUT", ROOT)
 REPO = os.environ.get("VERIF_REPO", "/repo")
 DRIVER = os.path.join(LEAN, ".lake", "build", "bin", "acdriver")
 ALLOWED_AXIOMS = {"propext", "Classical.choice", "Quot.sound"}
@@ -32,9 +34,24 @@ def import_repo():
 
 # ---------------------------------------------------------------- Lean side
 
+class build_lock:
+    """checks may run side by side (run_all, several seeds): `lake build` and the audit are serialised on a lock file"""
+    def __enter__(self):
+        import fcntl
+        self.f = open(os.path.join(LEAN, ".build.lock"), "w")
+        fcntl.flock(self.f, fcntl.LOCK_EX)
+        return self
+
+    def __exit__(self, *a):
+        import fcntl
+        fcntl.flock(self.f, fcntl.LOCK_UN)
+        self.f.close()
+
+
 def lean_build():
     t = time.time()
-    p = subprocess.run(["lake", "build", "ACModel", "acdriver"], cwd=LEAN, capture_output=True, text=True)
+    with build_lock():
+        p = subprocess.run(["lake", "build", "ACModel", "acdriver"], cwd=LEAN, capture_output=True, text=True)
     return p.returncode == 0, (p.stdout + p.stderr)[-4000:], time.time() - t
 
 
@@ -82,7 +99,8 @@ def audit(prop):
     tmp = os.path.join(LEAN, f".audit_{prop}_{os.getpid()}.lean")
     open(tmp, "w").write(body)
     try:
-        p = subprocess.run(["lake", "env", "lean", tmp], cwd=LEAN, capture_output=True, text=True)
+        with build_lock():
+            p = subprocess.run(["lake", "env", "lean", tmp], cwd=LEAN, capture_output=True, text=True)
     finally:
         os.remove(tmp)
     out = p.stdout + p.stderr
@@ -211,17 +229,17 @@ def load_known_findings(prop):
 
 
 def write_replay(prop, payload):
-    d = os.path.join(ROOT, "replays", prop)
+    d = os.path.join(OUT, "replays", prop)
     os.makedirs(d, exist_ok=True)
     blob = json.dumps(payload, sort_keys=True, default=str)
     h = hashlib.sha1(blob.encode()).hexdigest()[:12]
     path = os.path.join(d, f"{h}.json")
     open(path, "w").write(json.dumps(payload, indent=1, default=str))
-    return os.path.relpath(path, ROOT)
+    return os.path.relpath(path, OUT)
 
 
 def write_evidence(prop, tier, seed, lean_info, coverage, wall, violations, assumptions=None, extra=None):
-    os.makedirs(os.path.join(ROOT, "evidence"), exist_ok=True)
+    os.makedirs(os.path.join(OUT, "evidence"), exist_ok=True)
     cov = dict(coverage)
     cov.update({
         "obligations": lean_info.get("obligations", 0),
@@ -233,7 +251,7 @@ def write_evidence(prop, tier, seed, lean_info, coverage, wall, violations, assu
     })
     ev = {"property_id": prop, "tier": tier, "seed": seed, "level": "proof", "coverage": cov,
           "assumptions": assumptions or [], "wall_s": round(wall, 2), "violations": violations}
-    open(os.path.join(ROOT, "evidence", f"{prop}.json"), "w").write(json.dumps(ev, indent=1, default=str))
+    open(os.path.join(OUT, "evidence", f"{prop}.json"), "w").write(json.dumps(ev, indent=1, default=str))
 
 
 def finish(prop, tier, seed, lean_info, lean_problems, coverage, failures, t0, assumptions=None, extra=None,
